@@ -86,9 +86,6 @@ void AsyncSim::setup() {
 	KSI_CTX_setOption(ctx, svc_ext ? KSI_OPT_EXT_PDU_VER : KSI_OPT_AGGR_PDU_VER, (void *)(size_t)ver);
 	KSI_CTX_setOption(ctx, svc_ext ? KSI_OPT_EXT_HMAC_ALGORITHM : KSI_OPT_AGGR_HMAC_ALGORITHM, (void *)(size_t)alg);
 	int res;
-	if (ha) res = svc_ext ? KSI_ExtendingHighAvailabilityService_new(ctx, &svc) : KSI_SigningHighAvailabilityService_new(ctx, &svc);
-	else res = svc_ext ? KSI_ExtendingAsyncService_new(ctx, &svc) : KSI_SigningAsyncService_new(ctx, &svc);
-	if (res != KSI_OK) { K.inconclusive = true; K.inconclusive_why = "service_new failed"; return; }
 	size_t keylen = (size_t)std::max<int64_t>(1, plan.c("keylen", 8));
 	size_t loginlen = (size_t)std::max<int64_t>(1, plan.c("loginlen", 6));
 	for (int i = 0; i < neps; i++) {
@@ -105,17 +102,10 @@ void AsyncSim::setup() {
 		e.cfg.key = key; e.cfg.login = login;
 		e.net_ep = N.add_endpoint(e.host, e.port);
 		e.uri = (e.http ? "ksi+http://" : "ksi+tcp://") + e.host + ":" + std::to_string(e.port) + (e.http ? "/svc" + std::to_string(i) : "");
-		res = ha ? KSI_AsyncService_addEndpoint(svc, e.uri.c_str(), login.c_str(), key.c_str())
-		         : KSI_AsyncService_setEndpoint(svc, e.uri.c_str(), login.c_str(), key.c_str());
-		if (res != KSI_OK) { K.inconclusive = true; K.inconclusive_why = "setEndpoint failed"; return; }
 		eps.push_back(e);
 	}
-	KSI_AsyncService_setOption(svc, KSI_ASYNC_OPT_REQUEST_CACHE_SIZE, (void *)cache);
-	KSI_AsyncService_setOption(svc, KSI_ASYNC_OPT_MAX_REQUEST_COUNT, (void *)maxreq);
-	KSI_AsyncService_setOption(svc, KSI_ASYNC_OPT_SND_TIMEOUT, (void *)(size_t)snd_to);
-	KSI_AsyncService_setOption(svc, KSI_ASYNC_OPT_RCV_TIMEOUT, (void *)(size_t)rcv_to);
-	KSI_AsyncService_setOption(svc, KSI_ASYNC_OPT_CON_TIMEOUT, (void *)(size_t)con_to);
-	if (conf_cb) KSI_AsyncService_setOption(svc, KSI_ASYNC_OPT_PUSH_CONF_CALLBACK, (void *)conf_cb_tramp);
+	(void)res;
+	if (!create_service()) return;
 	// HTTP: the server learns about a request when its body has been sent
 	C.on_request = [this](Xfer &x) {
 		for (auto &e : eps) {
@@ -130,6 +120,55 @@ void AsyncSim::setup() {
 		}
 	};
 	K.ev("setup %s eps=%d cache=%zu maxreq=%zu to=%d/%d/%d ver=%d alg=%d", ha ? "ha" : "async", neps, cache, maxreq, snd_to, rcv_to, con_to, ver, alg);
+}
+
+// the service object with its endpoints and options (also used to replace a service that was freed in the middle of a run)
+bool AsyncSim::create_service() {
+	int res;
+	if (ha) res = svc_ext ? KSI_ExtendingHighAvailabilityService_new(ctx, &svc) : KSI_SigningHighAvailabilityService_new(ctx, &svc);
+	else res = svc_ext ? KSI_ExtendingAsyncService_new(ctx, &svc) : KSI_SigningAsyncService_new(ctx, &svc);
+	if (res != KSI_OK) { K.inconclusive = true; K.inconclusive_why = "service_new failed"; return false; }
+	for (auto &e : eps) {
+		res = ha ? KSI_AsyncService_addEndpoint(svc, e.uri.c_str(), e.cfg.login.c_str(), e.cfg.key.c_str())
+		         : KSI_AsyncService_setEndpoint(svc, e.uri.c_str(), e.cfg.login.c_str(), e.cfg.key.c_str());
+		if (res != KSI_OK) { K.inconclusive = true; K.inconclusive_why = "setEndpoint failed"; return false; }
+	}
+	KSI_AsyncService_setOption(svc, KSI_ASYNC_OPT_REQUEST_CACHE_SIZE, (void *)cache);
+	KSI_AsyncService_setOption(svc, KSI_ASYNC_OPT_MAX_REQUEST_COUNT, (void *)maxreq);
+	KSI_AsyncService_setOption(svc, KSI_ASYNC_OPT_SND_TIMEOUT, (void *)(size_t)snd_to);
+	KSI_AsyncService_setOption(svc, KSI_ASYNC_OPT_RCV_TIMEOUT, (void *)(size_t)rcv_to);
+	KSI_AsyncService_setOption(svc, KSI_ASYNC_OPT_CON_TIMEOUT, (void *)(size_t)con_to);
+	if (conf_cb) KSI_AsyncService_setOption(svc, KSI_ASYNC_OPT_PUSH_CONF_CALLBACK, (void *)conf_cb_tramp);
+	return true;
+}
+
+// The application frees the service with requests still outstanding (they are abandoned: the service owned them) and creates a
+// new one on the same context. What the context recycles from the old service must not influence the new one.
+void AsyncSim::op_recreate() {
+	if (!svc || !plan.c("recreate", 0) || in_quiesce) return;
+	for (auto &e : eps) if (e.http) return;
+	size_t abandoned = 0;
+	for (auto &r : recs) if (r->outstanding) {
+		r->outstanding = false; r->h = nullptr; r->abandoned = true; abandoned++;
+		if (!r->att.empty()) r->att.back().returned = true; // never, in fact: it no longer takes part in any matching
+	}
+	K.ev("RECREATE service (%zu outstanding request(s) abandoned)", abandoned);
+	K.count("probe.service_recreated");
+	if (abandoned) K.count("probe.service_recreated_with_outstanding");
+	KSI_AsyncService_free(svc);
+	svc = nullptr;
+	for (auto &e : eps) { e.pending.clear(); e.answered.clear(); e.pushed_conf = false; }
+	conf_events.clear();
+	stream_corrupted = false;
+	if (!create_service()) return;
+	generation++;
+	svc_birth_seq = K.seq;
+}
+
+bool AsyncSim::frame_of_current_service(const Frame &f) const {
+	if (f.conn >= 0) return N.conns[(size_t)f.conn]->opened_seq >= svc_birth_seq;
+	if (f.xfer >= 0) return C.xfers[(size_t)f.xfer]->added_seq >= svc_birth_seq;
+	return true;
 }
 
 void AsyncSim::teardown() {
@@ -806,6 +845,7 @@ void AsyncSim::exec(const run::Op &op) {
 		note_fault(op.arg(0) < 0 ? "clock_jump_back" : "clock_jump_fwd");
 	}
 	else if (k == "QUIESCE") quiesce();
+	else if (k == "RECREATE") op_recreate();
 	else if (k == "SILENT") { if (ha) eps[(size_t)op.arg(0) % eps.size()].silent = true; }
 	else op_fault(op);
 	record_state();
